@@ -91,7 +91,9 @@ class Runtime:
         self.events: List[Any] = []
 
     def _record(self, key: str, bound: Dict[str, Any], ctx: Any, tag: Any = None) -> Dict[str, Any]:
-        args = {k: (list(v) if isinstance(v, tuple) else v) for k, v in bound.items()}
+        # a deep copy: the echo behaviour consumes the live arguments afterwards
+        args = copy.deepcopy({k: (list(v) if isinstance(v, tuple) else v) for k, v in bound.items()})
+        self._live = bound
         if ctx is NOCTX:
             c = 'none'
         elif ctx is self.sentinel:
@@ -106,6 +108,11 @@ class Runtime:
         b = self.behaviours.get(key) or {'kind': 'echo'}
         k = b['kind']
         if k == 'echo':
+            # the method CONSUMES its container arguments (pops them empty) after copying them into its result: legitimate for a
+            # method - its arguments are its own - and it makes any sharing of parsed request data between requests visible
+            for v in getattr(self, '_live', {}).values():
+                if isinstance(v, (list, dict)):
+                    v.clear()
             return {'method': key, 'args': copy.deepcopy(entry['args'])}
         if k == 'return':
             return jg.py_materialise(b['value'])
